@@ -382,6 +382,17 @@ func ParseRealtime(content []byte, opts *ParseRealtimeOptions) (*Realtime, error
 		}
 		result.Vehicles = append(result.Vehicles, *vehicle)
 	}
+	// Map iteration order is random; order the vehicles that have an ID by that ID.
+	sort.Slice(result.Vehicles, func(i, j int) bool {
+		a, b := result.Vehicles[i].GetID(), result.Vehicles[j].GetID()
+		if a.ID != b.ID {
+			return a.ID < b.ID
+		}
+		if a.Label != b.Label {
+			return a.Label < b.Label
+		}
+		return a.LicensePlate < b.LicensePlate
+	})
 	for _, vehicle := range vehiclesWithNoID {
 		result.Vehicles = append(result.Vehicles, *vehicle)
 	}
